@@ -1,6 +1,6 @@
 (* Property C11 — clear() empties the cache and leaves it fully usable.
-   Only statements here; proofs are in CacheInv.v and CacheFresh.v. *)
-From StrettoModel Require Import Base Metrics Sketch Bloom TinyLFU Policy Ttl Store Cache CacheProofs CacheInv CacheMetrics CacheFresh.
+   Only statements here; proofs are in CacheInv.v, CacheFresh.v and CacheClearLive.v. *)
+From StrettoModel Require Import Base Metrics Sketch Bloom TinyLFU Policy Ttl Store Cache CacheProofs CacheInv CacheMetrics CacheFresh CacheClearLive.
 Open Scope N_scope.
 
 (* clear() returns only after the processor has acknowledged it.  In every reachable state (every
@@ -52,3 +52,20 @@ Theorem C11_clear_restores_the_fresh_estimator :
     s_tlfu st' = t0 /\ sl_kc (s_slfu st') = [] /\ sl_used (s_slfu st') = 0%Z.
 Proof. exact clear_restores_the_fresh_estimator. Qed.
 Print Assumptions C11_clear_restores_the_fresh_estimator.
+
+(* clear() — and the clear inside close() — is never stranded (proofs in CacheClearLive.v): in every
+   reachable state, whatever races with it, a client blocked on its clear signal can return now, or
+   its signal is still queued for a live processor, or the processor is performing that very clear;
+   a processor that exits releases every pending signal. *)
+Theorem C11_clear_never_stuck :
+  forall c mc t now st a id closing,
+  reach c (cinit c mc t now) st -> client_of st a = KClearBlock id closing ->
+  (exists st' o, continue_client c st a = StepOk st' o) \/
+  (In id (s_clear_sigs st) /\ s_pc st <> PExited) \/ clearing (s_pc st) id.
+Proof. exact clear_never_stuck. Qed.
+Print Assumptions C11_clear_never_stuck.
+
+Theorem C11_clear_wait_invariant_is_inductive :
+  forall c st l st' o, ClearWaitInv st -> cstep c st l = StepOk st' o -> ClearWaitInv st'.
+Proof. exact ClearWaitInv_step. Qed.
+Print Assumptions C11_clear_wait_invariant_is_inductive.
